@@ -1,0 +1,16 @@
+//go:build verif
+
+package comments
+
+import (
+	"go/ast"
+	"go/token"
+	"go/types"
+
+	"github.com/jmattheis/goverter/config"
+)
+
+// VerifParseGenDecl exposes parseGenDecl to the verification harness.
+func VerifParseGenDecl(fset *token.FileSet, pkg *types.Package, decl *ast.GenDecl) ([]config.RawConverter, error) {
+	return parseGenDecl(fset, pkg, decl)
+}
